@@ -215,8 +215,6 @@ impl<T: Qcow2IoOps> Qcow2Dev<T> {
         let mut len = buf.len();
         let old_offset = offset;
         let old_len = len;
-        let single =
-            (offset >> info.cluster_bits()) == ((offset + (len as u64) - 1) >> info.cluster_bits());
 
         if offset >= vsize {
             if !info.is_back_file() {
@@ -257,6 +255,15 @@ impl<T: Qcow2IoOps> Qcow2Dev<T> {
         };
 
         debug_assert!((len & bs_mask) == 0);
+
+        // nothing left after clamping to the end of image
+        if len == 0 {
+            return Ok(extra);
+        }
+
+        // `offset + len` can't overflow and `len` isn't zero now
+        let single =
+            (offset >> info.cluster_bits()) == ((offset + (len as u64) - 1) >> info.cluster_bits());
 
         let done = if single {
             let l2_entry = self.get_l2_entry(offset).await?;
